@@ -63,20 +63,28 @@ func c07Judge(in []byte, crc bool, identical *atomic.Int64) (string, string) {
 	if bytes.Equal(enc, out) {
 		identical.Add(1)
 	}
-	o := libDecode(enc, crc, []int{len(in) + 1}, 0, len(in)+4096)
-	switch {
-	case o.Panic != "":
-		return "lib-decode-panic|" + o.Site, o.Panic
-	case o.NewErr != nil:
-		return "lib-rejects-ref-stream", o.NewErr.Error()
-	case o.Livelock:
-		return "lib-decode-livelock", ""
-	case o.ReadErr != io.EOF:
-		return "lib-rejects-ref-stream", fmt.Sprint(o.ReadErr)
-	case !bytes.Equal(o.Data, in):
-		return "lib-decodes-ref-stream-differently", fmt.Sprintf("lib got %q", core.Trunc(string(o.Data), 80))
-	case o.CloseErr != nil:
-		return "lib-close-fails-on-ref-stream", o.CloseErr.Error()
+	// the library must decode the canonical stream under any read pattern; a few fixed ones here
+	// (C06 explores read compositions exhaustively on the library's own streams)
+	for _, rs := range [][]int{{len(in) + 1}, {1}, {7}, {512}, {3, 61}} {
+		if len(in) > 5000 && rs[0] == 1 {
+			continue
+		}
+		o := libDecode(enc, crc, rs, 0, len(in)+4096)
+		tag := fmt.Sprintf(" (read sizes %v)", rs)
+		switch {
+		case o.Panic != "":
+			return "lib-decode-panic|" + o.Site, o.Panic + tag
+		case o.NewErr != nil:
+			return "lib-rejects-ref-stream", o.NewErr.Error() + tag
+		case o.Livelock:
+			return "lib-decode-livelock", tag
+		case o.ReadErr != io.EOF:
+			return "lib-rejects-ref-stream", fmt.Sprint(o.ReadErr) + tag
+		case !bytes.Equal(o.Data, in):
+			return "lib-decodes-ref-stream-differently", fmt.Sprintf("lib got %d bytes %q, want %d bytes", len(o.Data), core.Trunc(string(o.Data), 80), len(in)) + tag
+		case o.CloseErr != nil:
+			return "lib-close-fails-on-ref-stream", o.CloseErr.Error() + tag
+		}
 	}
 	return "", ""
 }
